@@ -297,12 +297,12 @@ type c16Model struct {
 	base   int
 }
 
-func c16NewModel(n int) *c16Model {
-	m := &c16Model{parent: make([]int, n), base: 0}
+func c16NewModel(n int, start int) *c16Model {
+	m := &c16Model{parent: make([]int, n), base: start}
 	for i := range m.parent {
 		m.parent[i] = c16Dead
 	}
-	m.parent[0] = c16Base // world 0 is the empty world = the fresh disk layer
+	m.parent[start] = c16Base // world 0 is the empty world = the fresh disk layer
 	return m
 }
 
@@ -472,10 +472,11 @@ func (b *c16GateBatch) Write() error {
 
 type c16Cfg struct {
 	Name   string
-	Buffer int  // WriteBufferSize
-	Gated  bool // asynchronous flush, held at the gate while the reads are checked; clean caches disabled
-	MaxDL  int  // maxDiffLayers (package variable, the same for all configurations of one run)
-	Cap    bool // explicit cap(root,1) operations in the alphabet
+	Buffer int      // WriteBufferSize
+	Gated  bool     // asynchronous flush, held at the gate while the reads are checked; clean caches disabled
+	MaxDL  int      // maxDiffLayers (package variable, the same for all configurations of one run)
+	Cap    bool     // explicit cap(root,1) operations in the alphabet
+	Start  c16World // world that is committed to the disk layer before the exploration starts (zero value: fresh database)
 }
 
 type c16Inst struct {
@@ -505,6 +506,16 @@ func c16NewInst(u *c16Universe, cfg c16Cfg) *c16Inst {
 		NoAsyncFlush:      !cfg.Gated,
 		NoAsyncGeneration: true,
 	}, false)
+	if start := u.byWorld[cfg.Start]; start != 0 {
+		nodes, states := c16Transition(u, 0, start)
+		if err := in.db.Update(u.worlds[start].root, u.worlds[0].root, 0, nodes, states); err != nil {
+			panic(fmt.Sprintf("c16: preload update: %v", err))
+		}
+		if err := in.db.Commit(u.worlds[start].root, false); err != nil {
+			panic(fmt.Sprintf("c16: preload commit: %v", err))
+		}
+		in.drain()
+	}
 	return in
 }
 
@@ -913,7 +924,7 @@ type c16Sys struct {
 }
 
 func (sh *c16Shared) newSys() mc.Sys {
-	return &c16Sys{sh: sh, m: c16NewModel(len(sh.u.worlds))}
+	return &c16Sys{sh: sh, m: c16NewModel(len(sh.u.worlds), sh.u.byWorld[sh.cfg.Start])}
 }
 
 func (s *c16Sys) child(op c16Op) (int, bool) {
@@ -946,7 +957,7 @@ func (s *c16Sys) materialise() {
 		return
 	}
 	s.in = c16NewInst(s.sh.u, s.sh.cfg)
-	m := c16NewModel(len(s.sh.u.worlds))
+	m := c16NewModel(len(s.sh.u.worlds), s.sh.u.byWorld[s.sh.cfg.Start])
 	s.in.hold(m)
 	for _, i := range s.trace {
 		if err := s.step(m, i, false); err != nil {
@@ -1139,10 +1150,17 @@ func TestVerif_C16(t *testing.T) {
 		r.Bound("depth", depth)
 		r.Assume("reference model = per-world flat state and complete trie node set built with fresh in-memory tries (trie package is trusted), layer tree as parent map: a cap keeps exactly the descendants of the new disk layer, Commit keeps only the committed root, inserting an existing root is a no-op")
 		r.Assume("NoAsyncGeneration; background flushes are either synchronous (NoAsyncFlush) or held at a deterministic gate in front of the key-value batch write and awaited through buffer.done; concurrent readers during flattening are not part of this check")
-		cfgs := []c16Cfg{
-			{Name: "buf0", Buffer: 0, MaxDL: 2, Cap: true},
-			{Name: "buf1M", Buffer: 1 << 20, MaxDL: 2, Cap: true},
-			{Name: "buf0-gated", Buffer: 0, Gated: true, MaxDL: 2, Cap: true},
+		full := c16World{A: 1, AS: 1, B: 1}
+		var cfgs []c16Cfg
+		for _, start := range []c16World{{}, full} {
+			sn := "fresh"
+			if start != (c16World{}) {
+				sn = "disk=" + start.String()
+			}
+			cfgs = append(cfgs,
+				c16Cfg{Name: "buf0/" + sn, Buffer: 0, MaxDL: 2, Cap: true, Start: start},
+				c16Cfg{Name: "buf1M/" + sn, Buffer: 1 << 20, MaxDL: 2, Cap: true, Start: start},
+				c16Cfg{Name: "buf0-gated/" + sn, Buffer: 0, Gated: true, MaxDL: 2, Cap: true, Start: start})
 		}
 		for _, cfg := range cfgs {
 			if r.Expired() {
